@@ -1,6 +1,8 @@
 package checker
 
 import (
+	"sort"
+
 	"github.com/jsightapi/jsight-schema-go-library/errors"
 	"github.com/jsightapi/jsight-schema-go-library/internal/json"
 	"github.com/jsightapi/jsight-schema-go-library/internal/lexeme"
@@ -32,8 +34,14 @@ func CheckRootSchema(rootSchema *schema.Schema) {
 		c.checkNode(rootSchema.RootNode(), rootSchema.TypesList())
 	}
 
-	for name, typ := range rootSchema.TypesList() {
-		c.checkType(name, typ, rootSchema.TypesList())
+	// Iterate in a fixed order: which error is reported must not depend on map order.
+	names := make([]string, 0, len(rootSchema.TypesList()))
+	for name := range rootSchema.TypesList() {
+		names = append(names, name)
+	}
+	sort.Strings(names)
+	for _, name := range names {
+		c.checkType(name, rootSchema.TypesList()[name], rootSchema.TypesList())
 	}
 }
 
